@@ -111,7 +111,7 @@ VALID_VALUES = {
     'unsignedByte': ['0', '255'],
     'unsignedInt': ['0', '123'],
     'unsignedLong': ['0', '123'],
-    'duration': ['P1Y2M3DT4H5M6S', 'PT30M', 'P7D'],
+    'duration': ['P1DT30M', 'P1Y2M3DT4H5M6S', 'PT30M', 'P7D', 'P1DT1H30M', '-P1Y', 'PT0.5S'],
     'base64Binary': ['QUJD', 'AAAA'],
     'QName': ['p:local', 'local'],
     'anyType': ['anything'],
@@ -139,7 +139,7 @@ INVALID_VALUES = {
 LENIENT_KNOWN = {
     'C13-boolean-case-variants-accepted': ('boolean', ['True', 'TRUE']),
     'C13-datetime-lenient-lexical-forms': ('dateTime', ['2024-1-1T0:0:0Z', '2024-01-01t00:00:00z', '2024-01-01T00:00:00.Z']),
-    'C13-duration-lenient-lexical-forms': ('duration', ['PT1Y', 'PT1H1H', 'P1.5Y']),
+    'C13-duration-lenient-lexical-forms': ('duration', ['P1.5Y']),
 }
 
 
